@@ -17,10 +17,13 @@ def run_property(prop: str, tier: str) -> int:
     mod = importlib.import_module(f"sa.rules.{prop.lower()}")
     ctx = Ctx(prop, tier)
     explanation = mod.run(ctx)
-    if tier == "thorough" and hasattr(mod, "thorough"):
-        extra = mod.thorough(ctx)
-        if extra:
-            explanation += " " + extra
+    if tier == "thorough":
+        if hasattr(mod, "thorough"):
+            extra = mod.thorough(ctx)
+            if extra:
+                explanation += " " + extra
+        from . import selftest
+        explanation += " " + selftest.run(ctx)
     seed = int(os.environ.get("VERIF_SEED", "0") or 0)
     return finish(ctx, explanation, seed=seed)
 
